@@ -373,10 +373,13 @@ fn read_case(line: i64, column: i64, text: &str) -> String {
     let l = mem.allocate_number(line);
     let c = mem.allocate_number(column);
     let input = string_to_list(&mut mem, text);
+    // not a tail expression: its temporaries (the argument handles) must be dropped before `mem`
+    let answer =
     match crate::native::read::read(&mut mem, &[input, stdin_sym, l, c], GcRef::nil(), 1) {
         Ok(x)  => format!("ok {}", dumper.dump(&x, 100000)),
         Err(s) => format!("sig {}", dumper.dump(&s, 100000)),
-    }
+    };
+    answer
 }
 
 // ---------------------------------------------------------------------------
